@@ -18,6 +18,7 @@ Structural clauses decided:
 """
 import re
 
+import json
 from ..engine import cfg as C
 from ..engine import q as Q
 from ..engine import tables as TB
@@ -196,7 +197,10 @@ def rule_paths(ctx):
         fn_ = set()
         for (_, s) in none_edges:
             fn_ |= first_analysis(s)
-        ctx.check(fa and fa == fn_, "R4", inst, "admitted and unfiltered packets continue at the same analysis call(s) %s" % sorted(fa),
+        # the same analysis call: the same block, or two copies of one source call (a helper holding the analysis, called on both edges)
+        def _src(bs_):
+            return {(callee_of(b.blocks[x]["t"]), json.dumps(b.blocks[x]["t"].get("span"), sort_keys=True)) for x in bs_}
+        ctx.check(fa and (fa == fn_ or _src(fa) == _src(fn_)), "R4", inst, "admitted and unfiltered packets continue at the same analysis call(s) %s" % sorted(fa),
                   "admitted packets continue at blocks %s, unfiltered ones at %s" % (sorted(fa), sorted(fn_)), ctx.loc(b, adm))
     ctx.floor("R1", "per-packet paths with a filter call", n, 7)
 
